@@ -67,8 +67,22 @@ def judge(r, sql):
     if isinstance(ex, str) and ex.startswith("panic"):
         site = panic_site(ex.split("panic: ")[1]) if "panic: " in ex else "?"
         msg = ex.split("|")[-1][:60]
+        unresolved = any(i.startswith(("contains-in-subquery", "contains-exists", "contains-apply")) for i in r.get("issues", []))
+        if site.endswith("column-not-found-from-input"):
+            if unresolved:
+                # a consequence of the unresolved subquery form already reported above (its correlated
+                # column is no input of the plan under `in` / `exists`), not a finding of its own
+                return out
+            if has_subquery(sql):
+                # the subquery WAS unnested and a column reference broke on the way: its own class
+                site += ":unnested-subquery"
         out.append((f"executor-panics:{site}", f"{sql[:220]}: {msg} plan {r.get('plan', '')[:160]}"))
     return out
+
+
+def has_subquery(sql):
+    import re
+    return bool(re.search(r"\b(IN|EXISTS)\s*\(\s*SELECT\b|[=<>]\s*\(\s*SELECT\b", sql, re.I))
 
 
 def run_case(args):
@@ -143,7 +157,7 @@ def sentinel(w):
 
 def run(tier, seed):
     rep = Report("C17", tier, seed, "exploration")
-    n, nq = (64, 25) if tier == "quick" else (6000, 30)
+    n, nq = (320, 25) if tier == "quick" else (6000, 30)
     rep.rule = ("generated statements with every generator feature on (correlated IN, NOT IN, EXISTS, scalar subqueries, "
                 "full/right/left joins, cross joins, aggregates, DISTINCT, ORDER/LIMIT/OFFSET, CTE, derived tables with LIMIT, bare "
                 "boolean conditions) on memory and disk engines with real or mocked statistics; distinct non-trivial = distinct "
